@@ -9,6 +9,8 @@ import (
 	"os"
 	"path/filepath"
 	"strings"
+	"time"
+	_ "unsafe" // go:linkname below
 
 	"github.com/q191201771/lal/pkg/base"
 	"github.com/q191201771/lal/pkg/hls"
@@ -17,6 +19,7 @@ import (
 	"github.com/q191201771/lal/pkg/remux"
 	"github.com/q191201771/lal/pkg/rtmp"
 	"github.com/q191201771/lal/pkg/rtprtcp"
+	"github.com/q191201771/lal/pkg/rtsp"
 	"github.com/q191201771/lal/pkg/sdp"
 
 	"lalverif/proj"
@@ -296,14 +299,14 @@ func (w *roWorld) projectTsFrame(f *proj.EsFrame, hint *int) M {
 }
 
 type roTsConsumer struct {
-	name   string
-	conn   *MemConn
-	ss     *httpts.SubSession
-	dm     *proj.TsDemux
-	hdr    bool // HTTP response header consumed
-	buf    []byte
-	hintV  int
-	hintA  int
+	name  string
+	conn  *MemConn
+	ss    *httpts.SubSession
+	dm    *proj.TsDemux
+	hdr   bool // HTTP response header consumed
+	buf   []byte
+	hintV int
+	hintA int
 }
 
 func (c *roTsConsumer) drain(w *roWorld) M {
@@ -498,49 +501,70 @@ func roSdpFacts(w *roWorld, raw []byte) M {
 }
 
 type roRtpSide struct {
-	w       *roWorld
-	rm      *remux.Rtmp2RtspRemuxer
-	sdps    []M
-	pkts    []rtprtcp.RtpPacket
-	vpt     int
-	apt     int
-	hintV   int
-	hintA   int
+	w        *roWorld
+	rm       *remux.Rtmp2RtspRemuxer
+	sdps     []M
+	pkts     []rtprtcp.RtpPacket
+	vpt      int
+	apt      int
+	hintV    int
+	hintA    int
 	panicked string
 }
 
-// take groups the packets emitted since the last call into frames (runs of one payload type closed
-// by the marker bit) and depacketises them with the independent RFC 6184/7798/3640 reader.
-func (r *roRtpSide) take() []M {
+// roRawPkt is one RTP packet as delivered to a consumer, with the track it was delivered on.
+type roRawPkt struct {
+	tr  string
+	raw []byte
+}
+
+// roRtpFrames groups packets into frames (runs of one track and one timestamp closed by the marker bit) and
+// depacketises them with the independent RFC 6184/7798/3640 reader.
+func roRtpFrames(w *roWorld, pk []roRawPkt, hintV, hintA *int) []M {
 	out := []M{}
-	pk := r.pkts
-	r.pkts = nil
+	hdr := func(b []byte) (pt, mk, seq int, ts uint32, ssrc uint32) {
+		if len(b) < 12 {
+			return -1, 0, 0, 0, 0
+		}
+		return int(b[1] & 0x7f), int(b[1] >> 7), int(b[2])<<8 | int(b[3]),
+			uint32(b[4])<<24 | uint32(b[5])<<16 | uint32(b[6])<<8 | uint32(b[7]),
+			uint32(b[8])<<24 | uint32(b[9])<<16 | uint32(b[10])<<8 | uint32(b[11])
+	}
 	i := 0
 	for i < len(pk) {
+		pt0, _, seq0, ts0, ssrc0 := hdr(pk[i].raw)
 		j := i
-		for j < len(pk) && pk[j].Header.PacketType == pk[i].Header.PacketType && pk[j].Header.Timestamp == pk[i].Header.Timestamp {
+		for j < len(pk) && pk[j].tr == pk[i].tr {
+			pt, mk, _, ts, _ := hdr(pk[j].raw)
+			if pt != pt0 || ts != ts0 {
+				break
+			}
 			j++
-			if pk[j-1].Header.Mark == 1 {
+			if mk == 1 {
 				break
 			}
 		}
+		if j == i {
+			j = i + 1
+		}
 		grp := pk[i:j]
-		tr, codec := "a", r.w.a
-		if int(grp[0].Header.PacketType) == r.vpt {
-			tr, codec = "v", r.w.v
+		tr, codec := pk[i].tr, w.a
+		if tr == "v" {
+			codec = w.v
 		}
 		raws := [][]byte{}
-		wf, seqOk, mk := true, true, true
+		wf, seqOk, mkOk := true, true, true
 		for k, p := range grp {
-			raws = append(raws, p.Raw)
-			if len(p.Raw) < 13 || p.Raw[0] != 0x80 {
+			raws = append(raws, p.raw)
+			_, mk, seq, _, _ := hdr(p.raw)
+			if len(p.raw) < 13 || p.raw[0] != 0x80 {
 				wf = false
 			}
-			if k > 0 && p.Header.Seq != grp[k-1].Header.Seq+1 {
+			if seq != (seq0+k)%65536 {
 				seqOk = false
 			}
-			if (p.Header.Mark == 1) != (k == len(grp)-1) {
-				mk = false
+			if (mk == 1) != (k == len(grp)-1) {
+				mkOk = false
 			}
 		}
 		dc := codec
@@ -550,21 +574,207 @@ func (r *roRtpSide) take() []M {
 		units := []M{}
 		for _, u := range proj.RefRtpDepack(dc, raws) {
 			if tr == "v" {
-				units = append(units, r.w.projectNal(u, &r.hintV))
+				units = append(units, w.projectNal(u, hintV))
 			} else {
-				id, off, ok := r.w.locate(u, 0, r.hintA)
+				id, off, ok := w.locate(u, 0, *hintA)
 				if ok {
-					r.hintA = id
+					*hintA = id
 				}
 				units = append(units, roUnit("raw", "", 0, id, off, len(u), ok))
 			}
 		}
-		h := grp[0].Header
-		out = append(out, M{"tr": tr, "pt": int(h.PacketType), "seq": int(h.Seq), "np": len(grp), "ts": roT3(h.Timestamp),
-			"ssrc": proj.Limbs(h.Ssrc), "wf": wf, "seqOk": seqOk, "mk": mk, "units": units})
+		out = append(out, M{"tr": tr, "pt": pt0, "seq": seq0, "np": len(grp), "ts": roT3(ts0),
+			"ssrc": proj.Limbs(ssrc0), "wf": wf, "seqOk": seqOk, "mk": mkOk, "units": units})
 		i = j
 	}
 	return out
+}
+
+func (r *roRtpSide) take() []M {
+	pk := []roRawPkt{}
+	for _, p := range r.pkts {
+		tr := "a"
+		if int(p.Header.PacketType) == r.vpt {
+			tr = "v"
+		}
+		pk = append(pk, roRawPkt{tr, p.Raw})
+	}
+	r.pkts = nil
+	return roRtpFrames(r.w, pk, &r.hintV, &r.hintA)
+}
+
+// ---------------------------------------------------------------------------------------------
+// RTSP subscriber through the Group: a real rtsp.ServerCommandSession on an in-memory connection is
+// driven with DESCRIBE / SETUP (interleaved) / PLAY requests, so that Group.feedRtpPacket (key-frame
+// gating) and rtsp.SubSession / BaseOutSession deliver the packets of Group.rtmp2RtspRemuxer.
+
+//go:linkname roRtspWchan github.com/q191201771/lal/pkg/rtsp.serverCommandSessionWriteChanSize
+var roRtspWchan int
+
+type roRtspObs struct {
+	g    *logic.Group
+	desc chan struct{}
+	play chan struct{}
+}
+
+func (o *roRtspObs) OnNewRtspPubSession(session *rtsp.PubSession) error { return base.ErrRtsp }
+func (o *roRtspObs) OnNewRtspSubSessionDescribe(session *rtsp.SubSession) (bool, []byte) {
+	ok, sdp := o.g.HandleNewRtspSubSessionDescribe(session)
+	o.desc <- struct{}{}
+	return ok, sdp
+}
+func (o *roRtspObs) OnNewRtspSubSessionPlay(session *rtsp.SubSession) error {
+	o.g.HandleNewRtspSubSessionPlay(session)
+	o.play <- struct{}{}
+	return nil
+}
+
+type roRtspConsumer struct {
+	w     *roWorld
+	conn  *MemConn
+	cs    *rtsp.ServerCommandSession
+	obs   *roRtspObs
+	url   string
+	buf   []byte
+	state int // 1 = DESCRIBE sent, 2 = playing, 9 = failed
+	cseq  int
+	sdps  []M
+	pkts  []roRawPkt
+	chTr  map[int]string
+	hintV int
+	hintA int
+	errs  []string
+}
+
+func roWait(ch chan struct{}) bool {
+	select {
+	case <-ch:
+		return true
+	case <-time.After(5 * time.Second):
+		return false
+	}
+}
+
+// parse consumes complete interleaved frames and text responses from the head of the buffer.
+func (c *roRtspConsumer) parse() (resps []string) {
+	out, _ := c.conn.Drain()
+	c.buf = append(c.buf, out...)
+	for len(c.buf) > 0 {
+		if c.buf[0] == '$' {
+			if len(c.buf) < 4 {
+				return
+			}
+			n := int(c.buf[2])<<8 | int(c.buf[3])
+			if len(c.buf) < 4+n {
+				return
+			}
+			ch := int(c.buf[1])
+			if tr, ok := c.chTr[ch]; ok {
+				c.pkts = append(c.pkts, roRawPkt{tr, append([]byte{}, c.buf[4:4+n]...)})
+			} else {
+				c.errs = append(c.errs, fmt.Sprintf("data_on_channel_%d", ch))
+			}
+			c.buf = c.buf[4+n:]
+			continue
+		}
+		k := bytes.Index(c.buf, []byte("\r\n\r\n"))
+		if k < 0 {
+			return
+		}
+		head := string(c.buf[:k+4])
+		cl := 0
+		for _, ln := range strings.Split(head, "\r\n") {
+			if strings.HasPrefix(strings.ToLower(ln), "content-length:") {
+				fmt.Sscan(strings.TrimSpace(ln[15:]), &cl)
+			}
+		}
+		if len(c.buf) < k+4+cl {
+			return
+		}
+		resps = append(resps, string(c.buf[:k+4+cl]))
+		c.buf = c.buf[k+4+cl:]
+	}
+	return
+}
+
+func (c *roRtspConsumer) request(method, uri, extra string) {
+	c.cseq++
+	c.conn.Feed([]byte(fmt.Sprintf("%s %s RTSP/1.0\r\nCSeq: %d\r\n%s\r\n", method, uri, c.cseq, extra)))
+}
+
+// response polls for the next text response (the command loop runs in its own goroutine).
+func (c *roRtspConsumer) response() (string, bool) {
+	for i := 0; i < 100000; i++ {
+		if r := c.parse(); len(r) > 0 {
+			return r[0], true
+		}
+		time.Sleep(50 * time.Microsecond)
+	}
+	return "", false
+}
+
+func (c *roRtspConsumer) fail(why string) {
+	c.errs = append(c.errs, why)
+	c.state = 9
+}
+
+// advance continues the handshake as far as the server's answers allow.
+func (c *roRtspConsumer) advance() {
+	if c.state != 1 {
+		return
+	}
+	rs := c.parse()
+	if len(rs) == 0 {
+		return // DESCRIBE is answered when the stream has a session description
+	}
+	r := rs[0]
+	k := strings.Index(r, "\r\n\r\n")
+	if !strings.HasPrefix(r, "RTSP/1.0 200") || k < 0 {
+		c.fail("describe_not_200")
+		return
+	}
+	raw := []byte(r[k+4:])
+	c.sdps = append(c.sdps, roSdpFacts(c.w, raw))
+	ch := 0
+	for _, sm := range proj.ReadSdp(raw) {
+		tr := "a"
+		if sm.Media == "video" {
+			tr = "v"
+		}
+		c.chTr[ch] = tr
+		c.request("SETUP", c.url+"/"+sm.Control, fmt.Sprintf("Transport: RTP/AVP/TCP;unicast;interleaved=%d-%d\r\n", ch, ch+1))
+		if r, ok := c.response(); !ok || !strings.HasPrefix(r, "RTSP/1.0 200") {
+			c.fail("setup_failed")
+			return
+		}
+		ch += 2
+	}
+	c.request("PLAY", c.url, "Range: npt=0.000-\r\n")
+	if !roWait(c.obs.play) {
+		c.fail("play_not_processed")
+		return
+	}
+	if r, ok := c.response(); !ok || !strings.HasPrefix(r, "RTSP/1.0 200") {
+		c.fail("play_failed")
+		return
+	}
+	c.state = 2
+}
+
+func (c *roRtspConsumer) take() M {
+	c.parse()
+	pk := c.pkts
+	c.pkts = nil
+	sd := c.sdps
+	c.sdps = nil
+	if sd == nil {
+		sd = []M{}
+	}
+	errs := c.errs
+	if errs == nil {
+		errs = []string{}
+	}
+	return M{"sdp": sd, "frames": roRtpFrames(c.w, pk, &c.hintV, &c.hintA), "panic": strings.Join(errs, ","), "late": true}
 }
 
 func (r *roRtpSide) feed(msg base.RtmpMsg) {
@@ -591,7 +801,12 @@ func runRemuxOutScenario(sc *roScenario, tw *TraceWriter, tmp string) {
 		cfg.HlsConfig.DeleteThreshold = 0
 		cfg.HlsConfig.CleanupMode = hls.CleanupModeNever
 	}
+	if sc.Cfg.Rtsp {
+		cfg.RtspConfig.Enable = true
+		cfg.RtspConfig.OutWaitKeyFrameFlag = true
+	}
 	g := logic.NewGroup("live", stream, cfg, logic.GroupOption{}, groupObserver{})
+	var rg *roRtspConsumer
 	tw.Emit(M{"ev": "reset", "sc": sc.Sc, "v": sc.Cfg.V, "a": sc.Cfg.A, "hls": sc.Cfg.Hls, "rtsp": sc.Cfg.Rtsp, "gop": sc.Cfg.Gop})
 	var rs *roRtpSide
 	if sc.Cfg.Rtsp {
@@ -640,6 +855,20 @@ func runRemuxOutScenario(sc *roScenario, tw *TraceWriter, tmp string) {
 			g.AddHttptsSubSession(c.ss)
 			cons = append(cons, c)
 			tw.Emit(M{"ev": "Join", "c": st.C})
+		case "JoinRtsp":
+			if rg == nil && sc.Cfg.Rtsp {
+				roRtspWchan = 0
+				rg = &roRtspConsumer{w: w, conn: NewMemConn("rg"), chTr: map[int]string{}, url: "rtsp://h/live/" + stream, state: 1}
+				rg.obs = &roRtspObs{g: g, desc: make(chan struct{}, 4), play: make(chan struct{}, 4)}
+				rg.cs = rtsp.NewServerCommandSession(rg.obs, rg.conn, rtsp.ServerAuthConfig{}, false, "")
+				go rg.cs.RunLoop()
+				rg.request("DESCRIBE", rg.url, "Accept: application/sdp\r\n")
+				if !roWait(rg.obs.desc) {
+					rg.fail("describe_not_processed")
+				}
+				rg.advance()
+			}
+			tw.Emit(M{"ev": "Join", "c": "rg"})
 		case "Pub":
 			m := st.M
 			if m.K == "vsh" && m.Ver > w.maxVer {
@@ -679,13 +908,19 @@ func runRemuxOutScenario(sc *roScenario, tw *TraceWriter, tmp string) {
 			ev["out"] = drainAll()
 			if rs != nil {
 				rs.feed(msg)
-				ev["sdp"] = rs.sdps
-				if rs.sdps == nil {
-					ev["sdp"] = []M{}
+				sd := rs.sdps
+				if sd == nil {
+					sd = []M{}
 				}
 				rs.sdps = nil
-				ev["rtp"] = rs.take()
-				ev["rtpPanic"] = rs.panicked
+				rt := M{"ra": M{"sdp": sd, "frames": rs.take(), "panic": rs.panicked, "late": false}}
+				if rg != nil {
+					rg.advance()
+					rt["rg"] = rg.take()
+				} else {
+					rt["rg"] = M{"sdp": []M{}, "frames": []M{}, "panic": "", "late": true}
+				}
+				ev["rtp"] = rt
 			}
 			tw.Emit(ev)
 		case "End":
@@ -725,6 +960,9 @@ func runRemuxOutScenario(sc *roScenario, tw *TraceWriter, tmp string) {
 			tw.Emit(ev)
 			for _, c := range cons {
 				g.DelHttptsSubSession(c.ss)
+			}
+			if rg != nil {
+				rg.conn.Close()
 			}
 			return
 		}
